@@ -34,7 +34,7 @@ ASSUMPTIONS = ["stage lengths are taken from the public Stager.stages API (check
 
 
 def strategy(tier):
-    return samp.config()
+    return samp.config(type_changing_trace=True)
 
 
 def expected_rows(cfg, plan, recs, chain):
@@ -236,6 +236,14 @@ def run_one(res, cfg, tag):
 
             if isinstance(e, AdaptationError):
                 return None, "adaptation-error"
+            if isinstance(e, (OverflowError, ValueError)) and "relu" in cfg["traces"] and "chain_traces" in "".join(
+                    __import__("traceback").format_tb(e.__traceback__)[-2:]):
+                # same root cause as the recorded finding: the integer array allocated from the value at the initial
+                # state cannot take a later (huge or non-finite) float at all
+                res.fail("C13:trace-row:value-truncated-to-dtype-of-initial-state",
+                         f"[{tag}] writing a later float value into the integer trace array allocated from the value at "
+                         f"chain 0's initial state raised {type(e).__name__}: {e}")
+                return None, None
             init_failed = any("Initialisation of" in m for m in cap.messages)
             if isinstance(e, ValueError) and "zip()" in str(e) and not init_failed and cfg["n_process"] != 1:
                 # worker processes log in their own process: confirm the adapter failure with a sequential run
